@@ -13,17 +13,27 @@ package main
 //
 // The registries c09Decoders / c09Encoders have one line per decoder / encoder (lean/Driver/C09.lean has the
 // matching line); c09Sources lists the input generators.
+//
+// Part 2 (the decoders whose models other properties own): nbt.Decoder.Decode into the tree-level destinations of
+// C01/C03 (nbt.any, nbt.map, nbt.skip, nbt.disallow, nbt.raw, nbt.fix1, nbt.fix2; fmt=net|file), into a fresh variable
+// of a type of C02's universe (nbt.typed ty=<description> fmt= dis=), pk.NBTField.ReadFrom (nbtfield ty= allow=),
+// PaletteContainer.ReadFrom (palette kind= gb=), Section / Chunk / BlockEntity.ReadFrom (section, chunk, blockentity);
+// writers: nbt.Encoder.Encode (nbt ty= val= name= fmt=), PaletteContainer.WriteTo / Section.WriteTo / Chunk.WriteTo of
+// the value a wire form denotes (palette / section / chunk wire=<hex>).
+// Values are printed with the owning harnesses' functions (nbtcommon.go, c02.go, c12.go, c13.go, c08.go).
 
 import (
 	"bytes"
 	"fmt"
 	"io"
+	"reflect"
 	"sort"
 	"strconv"
 	"strings"
 	"time"
 
 	"github.com/Tnze/go-mc/level"
+	"github.com/Tnze/go-mc/level/block"
 	"github.com/Tnze/go-mc/nbt"
 	"github.com/Tnze/go-mc/nbt/dynbt"
 	mcnet "github.com/Tnze/go-mc/net"
@@ -62,6 +72,21 @@ var c09Decoders = map[string]c09Dec{
 	"dynbt.file": func(r io.Reader, p map[string]string) string { return c09RunDynbt(r, true) },
 	"snbt":       c09RunSnbt,
 	"bits":       c09RunBits,
+	// nbt.Decoder into dynamic / typed / raw targets (models: C01/C03 tree level, C02/C03 typed), NBTField
+	"nbt.any":      c09RunNbtTree("any"),
+	"nbt.map":      c09RunNbtTree("map"),
+	"nbt.skip":     c09RunNbtTree("skip"),
+	"nbt.disallow": c09RunNbtTree("disallow"),
+	"nbt.raw":      c09RunNbtTree("raw"),
+	"nbt.fix1":     c09RunNbtTree("fix1"),
+	"nbt.fix2":     c09RunNbtTree("fix2"),
+	"nbt.typed":    c09RunNbtTyped,
+	"nbtfield":     c09RunNbtField,
+	// level: paletted container (C12), section / chunk / block entity (C13)
+	"palette":     c09RunPalette,
+	"section":     c09RunSection,
+	"chunk":       c09RunChunk,
+	"blockentity": c09RunBlockEntity,
 }
 
 func c09RunVarInt(r io.Reader, _ map[string]string) string {
@@ -166,6 +191,126 @@ func c09RunBits(r io.Reader, p map[string]string) string {
 		return "err"
 	}
 	return fmt.Sprintf("ok n=%d raw=%s", n, hexLongs(st.Raw()))
+}
+
+// nbt.Decoder.Decode into the tree-level destinations of C01/C03 (harness/nbtcommon.go prints the values); p["fmt"]
+func c09RunNbtTree(dest string) c09Dec {
+	return func(r io.Reader, p map[string]string) string {
+		d := nbt.NewDecoder(r)
+		if p["fmt"] == "net" {
+			d.NetworkFormat(true)
+		}
+		var sb strings.Builder
+		var name string
+		var err error
+		switch dest {
+		case "any":
+			var v any
+			name, err = d.Decode(&v)
+			nbtCanonAny(&sb, v)
+		case "map":
+			var v map[string]any
+			name, err = d.Decode(&v)
+			nbtCanonMap(&sb, v)
+		case "skip":
+			var v struct{}
+			name, err = d.Decode(&v)
+			sb.WriteString("T{}")
+		case "disallow":
+			var v struct{}
+			d.DisallowUnknownFields()
+			name, err = d.Decode(&v)
+			sb.WriteString("T{}")
+		case "raw":
+			var v nbt.RawMessage
+			name, err = d.Decode(&v)
+			nbtCanonRaw(&sb, v)
+		case "fix1":
+			var v nbtFix1
+			if name, err = d.Decode(&v); err == nil {
+				nbtCanonFix1(&sb, &v)
+			}
+		case "fix2":
+			var v nbtFix2
+			if name, err = d.Decode(&v); err == nil {
+				nbtCanonFix2(&sb, &v)
+			}
+		}
+		if err != nil {
+			return "err"
+		}
+		return "ok name=" + hx([]byte(name)) + " v=" + sb.String()
+	}
+}
+
+// nbt.Decoder.Decode into a fresh variable of the type p["ty"] (C02's type descriptions and value rendering)
+func c09RunNbtTyped(r io.Reader, p map[string]string) string {
+	t, _ := c02ParseType(p["ty"])
+	d := nbt.NewDecoder(r)
+	if p["fmt"] == "net" {
+		d.NetworkFormat(true)
+	}
+	if p["dis"] == "1" {
+		d.DisallowUnknownFields()
+	}
+	dst := reflect.New(t)
+	name, err := d.Decode(dst.Interface())
+	if err != nil {
+		return "err"
+	}
+	return "ok name=" + hx([]byte(name)) + " v=" + c02ShowStr(dst.Elem())
+}
+
+// pk.NBTField{V: &v, AllowUnknownFields: p["allow"]}.ReadFrom
+func c09RunNbtField(r io.Reader, p map[string]string) string {
+	t, _ := c02ParseType(p["ty"])
+	dst := reflect.New(t)
+	n, err := pk.NBTField{V: dst.Interface(), AllowUnknownFields: p["allow"] == "1"}.ReadFrom(r)
+	if err != nil {
+		return "err"
+	}
+	return fmt.Sprintf("ok n=%d v=%s", n, c02ShowStr(dst.Elem()))
+}
+
+func c09Obs(n int64, err error, value func() string) string {
+	if err != nil {
+		return "err"
+	}
+	v := "panic"
+	guard(func() { v = value() })
+	return fmt.Sprintf("ok n=%d v=%s", n, v)
+}
+
+// PaletteContainer.ReadFrom into a fresh container; p["kind"] = states | biomes
+func c09RunPalette(r io.Reader, p map[string]string) string {
+	var cont c12Cont
+	n := 4096
+	if p["kind"] == "states" {
+		cont = c12W[level.BlocksState]{level.NewStatesPaletteContainer(16*16*16, 0)}
+	} else {
+		cont = c12W[level.BiomesState]{level.NewBiomesPaletteContainer(4*4*4, 0)}
+		n = 64
+	}
+	nn, err := cont.ReadFrom(r)
+	return c09Obs(nn, err, func() string { return c08ContObs(cont, n) })
+}
+
+func c09RunSection(r io.Reader, _ map[string]string) string {
+	s := &level.EmptyChunk(1).Sections[0]
+	n, err := s.ReadFrom(r)
+	return c09Obs(n, err, func() string { return c08SecObs(s) })
+}
+
+func c09RunChunk(r io.Reader, p map[string]string) string {
+	ch := level.EmptyChunk(c09Int(p["secs"]))
+	n, err := ch.ReadFrom(r)
+	return c09Obs(n, err, func() string { return c08ChunkObs(ch) })
+}
+
+func c09RunBlockEntity(r io.Reader, _ map[string]string) string {
+	var be level.BlockEntity
+	n, err := be.ReadFrom(r)
+	return c09Obs(n, err, func() string { return c13EntObs([]level.BlockEntity{be}) })
 }
 
 // ---------- readers: one observation ----------
@@ -341,6 +486,11 @@ var c09Encoders = map[string]c09Enc{
 	"rcon":  c09EncRcon,
 	"bits":  c09EncBits,
 	"dynbt": c09EncDynbt,
+	// level and nbt writers (models: Model/WritersLevel, WritersChunk, WritersNBT)
+	"palette": c09EncPalette,
+	"section": c09EncSection,
+	"chunk":   c09EncChunk,
+	"nbt":     c09EncNbt,
 }
 
 func c09EncFld(w io.Writer, p map[string]string) error {
@@ -393,6 +543,50 @@ func c09EncDynbt(w io.Writer, p map[string]string) error {
 		panic("c09: dynbt document does not decode: " + err.Error())
 	}
 	return v.MarshalNBT(w)
+}
+
+// the container / section / chunk that the wire form p["wire"] denotes (read back with the real ReadFrom), written again
+func c09EncPalette(w io.Writer, p map[string]string) error {
+	var cont c12Cont
+	if p["kind"] == "states" {
+		cont = c12W[level.BlocksState]{level.NewStatesPaletteContainer(16*16*16, 0)}
+	} else {
+		cont = c12W[level.BiomesState]{level.NewBiomesPaletteContainer(4*4*4, 0)}
+	}
+	if _, err := cont.ReadFrom(bytes.NewReader(unhx(p["wire"]))); err != nil {
+		panic("c09: palette wire form does not decode: " + err.Error())
+	}
+	_, err := cont.WriteTo(w)
+	return err
+}
+
+func c09EncSection(w io.Writer, p map[string]string) error {
+	s := &level.EmptyChunk(1).Sections[0]
+	if _, err := s.ReadFrom(bytes.NewReader(unhx(p["wire"]))); err != nil {
+		panic("c09: section wire form does not decode: " + err.Error())
+	}
+	_, err := s.WriteTo(w)
+	return err
+}
+
+func c09EncChunk(w io.Writer, p map[string]string) error {
+	ch := level.EmptyChunk(c09Int(p["secs"]))
+	if _, err := ch.ReadFrom(bytes.NewReader(unhx(p["wire"]))); err != nil {
+		panic("c09: chunk wire form does not decode: " + err.Error())
+	}
+	_, err := ch.WriteTo(w)
+	return err
+}
+
+// nbt.Encoder.Encode of the value p["val"] of type p["ty"] (C02's text forms), root name p["name"], format p["fmt"]
+func c09EncNbt(w io.Writer, p map[string]string) error {
+	t, _ := c02ParseType(p["ty"])
+	v, _ := c02ParseValue(t, p["val"])
+	e := nbt.NewEncoder(w)
+	if p["fmt"] == "net" {
+		e.NetworkFormat(true)
+	}
+	return e.Encode(v.Interface(), string(unhx(p["name"])))
 }
 
 // onceWriter accepts budget bytes, fails once with a short write, and accepts everything afterwards.
@@ -966,10 +1160,265 @@ var c09Sources = []func(c *Ctx){
 	genC09Dynbt,
 	genC09Snbt,
 	genC09Bits,
+	genC09Nbt,
+	genC09Level,
 }
 
 func genC09(c *Ctx) {
 	for _, g := range c09Sources {
 		g(c)
+	}
+}
+
+// ---------- nbt.Decoder / nbt.Encoder / NBTField ----------
+
+// offsets of the tag ids and length fields of a document (an own walk of the format)
+func c09NbtBounds(doc []byte, file bool) []int {
+	w := newCur(doc)
+	t := byte(w.u8())
+	if file && w.ok && t != 0 {
+		w.skip(int(w.length("be16", 1, 1)))
+	}
+	if w.ok {
+		w.nbtPayload(t, 0)
+	}
+	out := []int{1}
+	for _, l := range w.lens {
+		out = append(out, l.off, l.off+l.width)
+	}
+	if w.ok {
+		out = append(out, w.pos)
+	}
+	if len(out) > 24 {
+		out = out[:24]
+	}
+	return out
+}
+
+// the type descriptions of the typed cases: byte / int / long arrays (the io.ReadFull sites), lists of them, strings,
+// scalars, maps, structs, pointers, interfaces, carriers
+var c09NbtTypes = []string{"any", "sl<u8>", "sl<sl<u8>>", "sl<i8>", "sl<bool>", "sl<i32>", "sl<i64>", "sl<u64>", "sl<str>", "sl<any>", "str", "i16", "i64", "f64",
+	"ar<3;u8>", "ar<2;i64>", "map<any>", "map<sl<u8>>", "map<str>", "ptr<sl<u8>>", "ptr<any>", "raw", "dyn", "sl<raw>",
+	"st<>{41/e////any|42/e////sl<any>|43/e////map<any>}", "st<>{41/e/61///sl<u8>|42/e/62///str|43/e/63///sl<i64>}"}
+
+func genC09Nbt(c *Ctx) {
+	g := &nbtGen{r: c.R}
+	cg := &c02Gen{c: c, r: c.R, g: g, gf: &nbtGen{r: c.R, noFloat: true}}
+	// --- tree-level destinations on generated documents of every root tag ---
+	small := func(t *nbtNode, format string) ([]byte, bool) {
+		doc, _ := t.doc(format, g.bytesOf(c.R.Intn(4)))
+		return doc, len(doc) <= 220
+	}
+	for root := byte(1); root <= 12; root++ {
+		for i := 0; i < c.N(6, 40); i++ {
+			format := []string{"net", "file"}[i%2]
+			doc, ok := small(g.tree(root, c.R.Intn(3)), format)
+			if !ok {
+				continue
+			}
+			in := append([]byte{}, doc...)
+			if i%3 == 1 {
+				in = append(in, c.randBytes(1+c.R.Intn(3))...)
+			}
+			dests := []string{"any", "raw"}
+			if root == 10 {
+				dests = []string{"any", "raw", "map", "skip", "fix1"}
+			}
+			for _, dest := range dests {
+				c.c09Suite("nbt."+dest, []c09KV{{"fmt", format}}, in, c09NbtBounds(doc, format == "file"))
+			}
+		}
+	}
+	for i := 0; i < c.N(10, 80); i++ {
+		format := []string{"net", "file"}[i%2]
+		doc, ok := small(g.fixTree(1), format)
+		if !ok {
+			continue
+		}
+		for _, dest := range []string{"fix1", "fix2", "skip", "disallow", "map"} {
+			c.c09Suite("nbt."+dest, []c09KV{{"fmt", format}}, doc, c09NbtBounds(doc, format == "file"))
+		}
+	}
+	// hand-written documents: byte arrays at the very end of what the decoder reads (root, last element of a root list,
+	// last entry before the End of a compound), empty ones, the empty compound for `disallow`, negative lengths
+	for _, doc := range [][]byte{{7, 0, 0, 0, 3, 1, 2, 3}, {7, 0, 0, 0, 0}, {9, 7, 0, 0, 0, 2, 0, 0, 0, 1, 5, 0, 0, 0, 2, 6, 7},
+		{10, 7, 0, 1, 'a', 0, 0, 0, 2, 8, 9, 0}, {11, 0, 0, 0, 1, 0, 0, 0, 7}, {12, 0, 0, 0, 1, 0, 0, 0, 0, 0, 0, 0, 7}, {8, 0, 2, 'h', 'i'},
+		{10, 0}, {0}, {7, 0xff, 0xff, 0xff, 0xff, 1}, {9, 3, 0x80, 0, 0, 0}, {13, 0}} {
+		for _, dest := range []string{"any", "raw", "map", "skip", "disallow"} {
+			if doc[0] != 10 && dest != "any" && dest != "raw" {
+				continue
+			}
+			c.c09Suite("nbt."+dest, []c09KV{{"fmt", "net"}}, doc, c09NbtBounds(doc, false))
+			fdoc := append([]byte{doc[0], 0, 1, 'r'}, doc[1:]...)
+			if doc[0] == 0 {
+				fdoc = doc
+			}
+			c.c09Suite("nbt."+dest, []c09KV{{"fmt", "file"}}, fdoc, c09NbtBounds(fdoc, true))
+		}
+	}
+	// --- typed destinations: encodings of generated values (by the real encoder), read back ---
+	descs := append([]string{}, c09NbtTypes...)
+	descs = append(descs, c02Describe(c02Named["C02Inner"]), c02Describe(reflect.TypeOf(c08Inner{})), c02Describe(reflect.TypeOf(c08Struct{})),
+		c02Describe(reflect.TypeOf(c08HeightMaps{})))
+	wcount := 0
+	for ti, desc := range descs {
+		t, _ := c02ParseType(desc)
+		desc = c02Describe(t)
+		for i := 0; i < c.N(5, 30); i++ {
+			format := []string{"net", "file"}[(i+ti)%2]
+			v := cg.value(t, 2)
+			vdesc := c02ShowStr(v)
+			name := g.bytesOf(c.R.Intn(3))
+			var buf bytes.Buffer
+			okEnc := false
+			guard(func() {
+				e := nbt.NewEncoder(&buf)
+				if format == "net" {
+					e.NetworkFormat(true)
+				}
+				okEnc = e.Encode(v.Interface(), string(name)) == nil
+			})
+			if !okEnc || buf.Len() > 260 {
+				continue
+			}
+			doc := append([]byte{}, buf.Bytes()...)
+			in := append([]byte{}, doc...)
+			if i%3 == 2 {
+				in = append(in, c.randBytes(1+c.R.Intn(3))...)
+			}
+			bounds := c09NbtBounds(doc, format == "file")
+			dis := strconv.Itoa(i % 2)
+			c.c09Suite("nbt.typed", []c09KV{{"ty", desc}, {"fmt", format}, {"dis", dis}}, in, bounds)
+			if format == "net" && i%2 == 0 {
+				c.c09Suite("nbtfield", []c09KV{{"ty", desc}, {"allow", strconv.Itoa((i / 2) % 2)}}, in, bounds)
+			}
+			// writer side (nbt.Encoder.Encode): map iteration order is not fixed, so maps with more than one entry are left out
+			if !strings.Contains(desc, "map<") && !strings.Contains(desc, "any") && !strings.Contains(desc, "dyn") && wcount < c.N(60, 600) {
+				wcount++
+				c.c09WSuite("nbt", []c09KV{{"ty", desc}, {"val", vdesc}, {"name", hx(name)}, {"fmt", format}}, bounds)
+			}
+		}
+	}
+	// typed hand-written: the byte-array documents into []byte, [][]byte, []any, any, a struct field
+	for _, e := range []struct {
+		ty  string
+		doc []byte
+	}{{"sl<u8>", []byte{7, 0, 0, 0, 3, 1, 2, 3}}, {"any", []byte{7, 0, 0, 0, 3, 1, 2, 3}}, {"sl<sl<u8>>", []byte{9, 7, 0, 0, 0, 2, 0, 0, 0, 1, 5, 0, 0, 0, 2, 6, 7}},
+		{"sl<any>", []byte{9, 7, 0, 0, 0, 2, 0, 0, 0, 1, 5, 0, 0, 0, 2, 6, 7}}, {"any", []byte{9, 7, 0, 0, 0, 1, 0, 0, 0, 2, 6, 7}},
+		{"sl<i8>", []byte{7, 0, 0, 0, 2, 0xff, 1}}, {"ar<3;u8>", []byte{7, 0, 0, 0, 3, 1, 2, 3}}, {"sl<i32>", []byte{11, 0, 0, 0, 1, 0, 0, 0, 7}},
+		{"map<any>", []byte{10, 7, 0, 1, 'a', 0, 0, 0, 2, 8, 9, 0}}, {"str", []byte{8, 0, 2, 'h', 'i'}}, {"any", []byte{0}}, {"raw", []byte{7, 0, 0, 0, 2, 8, 9}}} {
+		t, _ := c02ParseType(e.ty)
+		desc := c02Describe(t)
+		c.c09Suite("nbt.typed", []c09KV{{"ty", desc}, {"fmt", "net"}, {"dis", "0"}}, e.doc, c09NbtBounds(e.doc, false))
+		c.c09Suite("nbtfield", []c09KV{{"ty", desc}, {"allow", "0"}}, append(append([]byte{}, e.doc...), 0x7e), c09NbtBounds(e.doc, false))
+	}
+}
+
+// ---------- level: paletted container, section, chunk, block entity ----------
+
+func genC09Level(c *Ctx) {
+	gbS, gbB := strconv.Itoa(c12GB("blocks")), strconv.Itoa(c12GB("biomes"))
+	// paletted containers: biomes (64 entries: short wire forms, every palette kind), block states (single-valued, 4-bit linear)
+	walkBounds := func(w *c08Cur) []int {
+		out := []int{1}
+		for _, l := range w.lens {
+			out = append(out, l.off, l.off+l.width)
+		}
+		return append(out, w.pos)
+	}
+	for i := 0; i < c.N(14, 80); i++ {
+		kind, gb := "biomes", gbB
+		var buf bytes.Buffer
+		guard(func() {
+			if i%7 == 6 {
+				kind, gb = "states", gbS
+				p := level.NewStatesPaletteContainer(16*16*16, level.BlocksState(c.R.Intn(100)))
+				for k := c.R.Intn(3) * 2; k > 0; k-- { // 0 (single), 2 or 4 further values: 4-bit linear
+					p.Set(c.R.Intn(4096), level.BlocksState(1+c.R.Intn(9)))
+				}
+				p.WriteTo(&buf)
+			} else {
+				c08BiomesContainer(c).WriteTo(&buf)
+			}
+		})
+		wire := append([]byte{}, buf.Bytes()...)
+		in := append([]byte{}, wire...)
+		if i%2 == 1 {
+			in = append(in, c.randBytes(1+c.R.Intn(3))...)
+		}
+		w := newCur(wire)
+		w.paletteContainer(kind == "states")
+		c.c09Suite("palette", []c09KV{{"kind", kind}, {"gb", gb}}, in, walkBounds(w))
+		c.c09WSuite("palette", []c09KV{{"kind", kind}, {"gb", gb}, {"wire", hx(wire)}}, walkBounds(w))
+	}
+	// malformed containers: negative / oversize palette size, negative data length
+	for _, in := range [][]byte{{4, 0xff, 0xff, 0xff, 0xff, 0x0f, 1}, {2, 5, 1, 2, 3, 4, 5, 0}, {0, 7, 0xff, 0xff, 0xff, 0xff, 0x0f}, {1, 2, 1, 2, 1, 0, 0, 0, 0, 0, 0, 0, 0xe4, 9}} {
+		c.c09Suite("palette", []c09KV{{"kind", "biomes"}, {"gb", gbB}}, in, []int{1, 2})
+	}
+	// sections: both containers small
+	for i := 0; i < c.N(4, 30); i++ {
+		var buf bytes.Buffer
+		guard(func() {
+			st := level.NewStatesPaletteContainer(16*16*16, level.BlocksState(c.R.Intn(100)))
+			if i%2 == 1 {
+				st.Set(c.R.Intn(4096), level.BlocksState(1+c.R.Intn(9)))
+			}
+			s := level.Section{BlockCount: int16(c.R.Intn(4096)), States: st, Biomes: c08BiomesContainer(c)}
+			s.WriteTo(&buf)
+		})
+		wire := append([]byte{}, buf.Bytes()...)
+		in := append([]byte{}, wire...)
+		if i%2 == 1 {
+			in = append(in, c.randBytes(1+c.R.Intn(3))...)
+		}
+		w := newCur(wire)
+		w.section()
+		c.c09Suite("section", []c09KV{{"gbs", gbS}, {"gbb", gbB}}, in, walkBounds(w))
+		c.c09WSuite("section", []c09KV{{"gbs", gbS}, {"gbb", gbB}, {"wire", hx(wire)}}, walkBounds(w))
+	}
+	// block entities
+	for i := 0; i < c.N(12, 80); i++ {
+		in := []byte{byte(c.R.Intn(256)), byte(c.R.Intn(2)), byte(c.R.Intn(256))}
+		in = append(in, leb(uint64(c.R.Intn(300)))...)
+		if i%5 == 0 {
+			in = append(in, 0)
+		} else {
+			g := c.genDoc(false, byte(1+c.R.Intn(12)), c.dynPick(1, 2))
+			if len(g.b) > 200 {
+				continue
+			}
+			in = append(in, g.b...)
+		}
+		n := len(in)
+		if i%2 == 1 {
+			in = append(in, c.randBytes(1+c.R.Intn(3))...)
+		}
+		c.c09Suite("blockentity", nil, in, []int{1, 3, n})
+	}
+	// chunks: one section, single-valued containers (the wire form is about 2.5 KB: the light masks), a block entity
+	for i := 1; i <= c.N(2, 12); i++ {
+		var buf bytes.Buffer
+		guard(func() {
+			ch := level.EmptyChunk(1)
+			if i%2 == 1 {
+				ch.Sections[0].SetBlock(c.R.Intn(4096), level.BlocksState(1+c.R.Intn(9)))
+				ch.BlockEntity = append(ch.BlockEntity, level.BlockEntity{XZ: int8(c.R.Intn(256)), Y: int16(c.R.Intn(300)),
+					Type: block.EntityType(c.R.Intn(40)), Data: nbt.RawMessage{Type: 10, Data: []byte{1, 0, 1, 'a', 5, 0}}})
+			}
+			ch.WriteTo(&buf)
+		})
+		wire := append([]byte{}, buf.Bytes()...)
+		in := append([]byte{}, wire...)
+		if i%2 == 1 {
+			in = append(in, 0x7e)
+		}
+		w := c08WalkChunk("1", wire)
+		bounds := walkBounds(w)
+		if len(bounds) > 16 {
+			bounds = bounds[:16]
+		}
+		params := []c09KV{{"secs", "1"}, {"gbs", gbS}, {"gbb", gbB}}
+		c.c09Suite("chunk", params, in, bounds)
+		c.c09WSuite("chunk", append(params, c09KV{"wire", hx(wire)}), bounds)
 	}
 }
